@@ -476,6 +476,66 @@ def partitions(n, maxparts):
     return out
 
 
+def chain_resume(res, tier, wd, r):
+    """strings that the compiler splits into chained pieces, the pieces of one occurrence lying in different blocks, and every
+    subset of not-ready answers: the repeated scan reports what the uninterrupted scan of the same blocks reports (the state of
+    half-confirmed chains survives a suspension)"""
+    from checks import func
+    exe = yv.driver("asan")
+    src = ('rule chain { strings: $c = { 11 22 33 [250-500] 44 55 66 } condition: $c }\n'
+           'rule chain3 { strings: $d = { AA BB [210-260] CC DD [205-300] EE FF } condition: $d }\n'
+           'rule unb { strings: $u = { 71 72 73 [-] 74 75 76 } condition: $u }\n'
+           'rule plain { strings: $p = "MK1;" condition: #p == 2 }\n')
+    fill = lambda n: bytes(0x2e for _ in range(n))
+    # (offsets of matches are relative to their block: the distances below are the ones the engine computes across blocks)
+    d1 = fill(10) + bytes.fromhex("112233") + fill(100) + b"MK1;" + fill(183) + fill(300) + bytes.fromhex("445566") + fill(40) + b"MK1;" + fill(53)          # 300 + 400
+    d2 = (fill(5) + bytes.fromhex("aabb") + fill(43) + bytes.fromhex("717273") + fill(247)                    # 300: heads of chain3 and unb
+          + fill(237) + bytes.fromhex("ccdd") + fill(61)                                                       # 300: middle of chain3
+          + fill(100) + bytes.fromhex("747576") + fill(386) + bytes.fromhex("eeff") + fill(109))               # 600: tails
+    layouts = [(d1, "300,400"), (d1, "300,200,200"), (d2, "300,300,600"), (d2, "300,300,300,300")]
+    lines = ["init", "opt iterlog 0", "compiler 0", "add 0 - " + yv.hx(src.encode()), "getrules 0 0", "cdestroy 0", "scanner 0 0"]
+    cases = []
+    for li, (data, spec) in enumerate(layouts):
+        nb = spec.count(",") + 1
+        lines.append("data %d %s" % (li + 1, yv.hx(data)))
+        subsets = [()]
+        for m in (1, 2):
+            subsets += list(itertools.combinations(range(nb + 2), m))
+        if tier == "quick":
+            subsets = [()] + r.sample(subsets[1:], min(10, len(subsets) - 1))
+        for nr in subsets:
+            lines += ["note r%d" % len(cases), "scan 0 %d blocks %s %s -" % (li + 1, spec, ",".join(map(str, nr)) if nr else "-")]
+            cases.append((li, spec, nr))
+    lines += ["sdestroy 0", "rdestroy 0", "finalize"]
+    run = yv.run_script(exe, lines, wd, name="c13_chain", hang=120, timeout=900)
+    if not run.complete:
+        res.violation("chained strings across suspended scans: %s" % yv.crash_summary(run), yv.save_replay("C13", "chain_crash", {"crash": yv.crash_summary(run), "script": run.script_path}))
+        return
+    cur, per = None, {}
+    for e in run.events:
+        if e["e"] == "Note" and e["text"].startswith("r"): cur = per.setdefault(int(e["text"][1:]), {"obs": [], "ret": None})
+        elif cur is None: continue
+        elif e["e"] == "Cb" and e["msg"] in ("match", "nomatch"): cur["obs"].append([e["msg"], e.get("rule"), [[x["id"], x["m"]] for x in e.get("strings", [])]])
+        elif e["e"] == "ScanRet": cur["ret"] = e["ret"]
+    base = {}
+    records, owners = [], []
+    for k, (li, spec, nr) in enumerate(cases):
+        p = per.get(k)
+        if p is None: continue
+        if nr == (): base[(li, spec)] = p
+        ref = base.get((li, spec))
+        if ref is None or nr == (): continue
+        records.append({"kind": "afterhistory", "fresh": ref["obs"], "after": p["obs"], "fresh_ret": ref["ret"], "after_ret": p["ret"], "flags_changed": 0})
+        owners.append(("blocks %s, not-ready at iterator calls %s" % (spec, list(nr)), json.dumps(ref["obs"])[:300], json.dumps(p["obs"])[:300]))
+        res.count(1, ("chain-resume", li, spec, nr))
+    res.cov["parts"]["chained_strings_across_suspensions"] = {"cases": len(records), "rules_matching_uninterrupted": sorted({o[1] for b_ in base.values() for o in b_["obs"] if o[0] == "match"})}
+    bad, known, states = func.tlc_judge2(records, wd, "c13_chain")
+    res.cov["states"] += states; res.cov["transitions"] += states
+    res.cov["traces_validated_against_impl"] += len(records) - len(bad)
+    for b_ in bad[:10]:
+        res.violation("chained strings, %s: the uninterrupted scan reports %s, the repeated one %s" % owners[b_], yv.save_replay("C13", "chain_resume_%d" % b_, {"case": owners[b_][0], "record": records[b_]}))
+
+
 def c13(res, tier, seed):
     model_check(res, [("resume", "MC_Scan_resume.cfg")])
     expect_model_violation(res, [("D9", "MC_Scan_resume_D9.cfg", "ProtocolOK")])
@@ -528,6 +588,7 @@ def c13(res, tier, seed):
         execs.append({"rules": rules, "scans": scans, "kind": "c13-entrypoints-scanner"})
         execs.append({"rules": rules, "scans": [scan(f, data, sizes, mode=m) for m in ("mem", "file", "fd")], "kind": "c13-entrypoints-rules", "api": "rules"})
     run_chunks(res, "C13", execs, "asan", "c13", chunk=40)
+    chain_resume(res, tier, yv.workdir("C13"), r)
     res.cov["rule"] = ("(1) random rule sets x files cut into 1-4 blocks x subsets (size <= 3) of the block loop's iterator calls answering "
                        "not-ready, the call repeated until completion, plus not-ready answers inside the re-iteration made by rule evaluation; "
                        "(2) the same bytes through yr_scanner_scan_mem/file/fd, a single-block iterator (on a scanner that scanned other bytes before; 2-20 rules, up to 10 namespaces) and yr_rules_scan_mem/file/fd, incl. "
